@@ -410,7 +410,9 @@ func (o *c09Oracle) get(k, ret []byte, st cache.Stats) {
 	switch {
 	case i < 0 && ret != nil:
 		o.failf("get", "Get(%x) = %x but no Set of this key survives", k, ret)
-	case i >= 0 && (ret == nil || !bytes.Equal(ret, o.live[i].v)):
+	case i >= 0 && (!bytes.Equal(ret, o.live[i].v) || (ret == nil && o.live[i].v != nil)):
+		// (a value that was stored as a nil slice comes back as no bytes; the counters checked
+		// below tell a hit from a miss)
 		o.failf("get", "Get(%x) = %x (nil=%v) but the latest surviving Set stored %x", k, ret, ret == nil, o.live[i].v)
 	}
 	if i < 0 {
@@ -496,6 +498,11 @@ func (r *c09Runner) runOps(ops []c09Op) {
 		switch o.kind {
 		case 'S':
 			k, v := cloneBytes(o.k), cloneBytes(o.v) // the cache keeps the slices
+			if len(v) == 0 && len(k)%2 == 0 {
+				// an empty value is stored as a nil slice for every other key length and as an
+				// empty non-nil one otherwise: an entry with no bytes is still an entry
+				v = nil
+			}
 			r.stack = append(r.stack, &c09RunFrame{cbs: o.cbs})
 			r.or.beginSet(k, v)
 			ret := r.c.Set(k, v)
@@ -506,14 +513,27 @@ func (r *c09Runner) runOps(ops []c09Op) {
 			}
 			r.or.endSet(ret, r.emit(ev))
 		case 'G':
-			ret := r.c.Get(cloneBytes(o.k))
+			k := cloneBytes(o.k)
+			if len(k) == 0 {
+				k = nil // Set passes an empty non-nil key, Get and Del a nil one
+			}
+			before := r.c.Stats()
+			ret := r.c.Get(k)
 			ev := "G=nil"
-			if ret != nil {
+			if len(ret) > 0 {
 				ev = "G=" + hx(ret)
+			} else if r.c.Stats().Hit > before.Hit {
+				// no bytes came back: a stored empty (or nil) value and an absent key look the
+				// same to the caller; the hit counter tells which one the cache meant
+				ev = "G=" + hx(nil)
 			}
 			r.or.get(o.k, ret, r.emit(ev))
 		case 'D':
-			r.c.Del(cloneBytes(o.k))
+			dk := cloneBytes(o.k)
+			if len(dk) == 0 {
+				dk = nil
+			}
+			r.c.Del(dk)
 			r.or.del(o.k, r.emit("D"))
 		case 'C':
 			r.c.Clear()
